@@ -67,9 +67,18 @@ def strict_excused(a, e, patterns):
         if c.search(a) and c.search(e) and c.sub(PLACEHOLDER, a) == c.sub(PLACEHOLDER, e):
             return True
     if len(free) > 1:
-        c = re.compile('|'.join('(?:%s)' % p for p in free))
-        if c.search(a) and c.search(e) and c.sub(PLACEHOLDER, a) == c.sub(PLACEHOLDER, e):
-            return True
+        # all patterns together - but a part matched by one pattern may only stand against a part
+        # matched by the SAME pattern (tdda documents that the pattern must match on both lines), so
+        # every pattern gets its own placeholder (private-use characters no pattern can match)
+        c = re.compile('|'.join('(?P<p%d>%s)' % (i, p) for i, p in enumerate(free)))
+
+        def mark(m):
+            return chr(0xE000 + int(m.lastgroup[1:])) if m.lastgroup else PLACEHOLDER
+        try:
+            if c.search(a) and c.search(e) and c.sub(mark, a) == c.sub(mark, e):
+                return True
+        except (re.error, TypeError, ValueError):
+            pass
     return False
 
 
